@@ -88,6 +88,25 @@ CLAIMS: dict[str, dict[str, str]] = {
         "note": NOTE + " The per-token meaning table in pvs/props/C08.py transcribes docs/docs/string_formatting.md.",
         "technique": "reader/writer table agreement over regex-AST token language, per-token width/scale rules",
     },
+    "C09": {
+        "text": "Static rule checking of the decomposition shape: positional slots and the 365/30-day terms of "
+                "timedelta.__new__, removal of exactly that part from the total, divmod pairing ((x//86400, x%86400) of "
+                "one x with one sign; (y//7, y%7)), mixed-radix digits of _seconds with radices 60/60/24 and its sign, "
+                "integer guard, AbsoluteDuration's divmod pairs, total_*/in_* constants. Canonical ranges and exact "
+                "sum follow from these shapes for integer arithmetic; float effects are not claimed.",
+        "note": NOTE,
+        "technique": "polynomial normal forms of the normalisation expressions (divmod-pair / mixed-radix rules)",
+    },
+    "C10": {
+        "text": "Static rule checking: operator protocol on every type-feasible path of the 7 binary special methods; "
+                "attribute-under-guard (attributes read from the other operand exist on each admitted class, using "
+                "dir(timedelta) of the interpreter); component-wise __neg__/__mul__; microsecond weights for both "
+                "operand kinds; numerator/denominator of each rounding call; statement-level agreement of "
+                "_divide_and_round with Lib/_pydatetime.py; constructor compatibility of inherited operators in "
+                "subclasses; Interval delegation.",
+        "note": NOTE,
+        "technique": "path-sensitive operator-protocol and attribute-under-guard analysis, stdlib-reference sibling check",
+    },
 }
 
 NOT_APPLICABLE: dict[str, str] = {}
